@@ -500,7 +500,7 @@ def xstack_effect(opcode, opc, oparg: int = 0, jump=None):
                     return [-1, -2, -3, -3, -2, -3, -3, -4, -2, -3, -3, -4][oparg]
                 elif (3, 6) <= version_tuple < (3, 11):
                     return [-1, -2, -2, -3, -2, -3, -3, -4, -2, -3, -3, -4][oparg]
-                elif 0 <= oparg <= 2:
+                elif 0 <= oparg <= 2 and version_tuple < (3, 13):
                     return [0, -1, -1][oparg]
             if version_tuple >= (3, 13):
                 # the operand-less 3.13 MAKE_FUNCTION replaces the code object by the function
